@@ -1,5 +1,6 @@
 import CnlProofs.Elastic
 import CnlProofs.ElasticScaled
+import CnlProofs.ElasticWide
 /-!
 # C05 — elastic_integer arithmetic never overflows and stays within its declared digits
 
@@ -21,6 +22,9 @@ states the same with the storage selections as explicit hypotheses.)
                     `C05.shr_negative_below_declared_range`): `elastic_integer<40>{−(2^40−1)} >> 5`
                     is `−2^35`, one below the lowest value of the 35-digit result type.
 * `cmp_exact`       all six comparisons compare the mathematical values, for every signedness mix.
+
+* `wide_binOp_exact`, `wide_neg_exact` (last section) — results that need multi-word storage (`xBin`, `xNeg` of
+                    `CnlModel/ElasticWide.lean`): the policy's digits, the exact value, inside the declared range.
 
 Nothing is left unproved; the only part of the property that fails is the one refuted by
 `shrConst_refuted`.
@@ -369,5 +373,54 @@ example : (⟨31, i32, -31, -1⟩ : ESNum).InRange ∧ (⟨32, u32, 0, 429496729
   refine ⟨by decide, by decide, fun m h => ?_⟩
   have e : ElasticScaled.cmp .lt ⟨31, i32, -31, -1⟩ ⟨32, u32, 0, 4294967295⟩ = .ok true := by decide
   rw [e] at h; cases h
+
+/-! ## results that need multi-word storage (`CnlModel/ElasticWide.lean`)
+
+Beyond 127/128 digits `set_digits_t` selects `wide_integer<digits, Narrowest>`; `binOp` / `neg` (built-in storage)
+are `.ill` there and `xBin` / `xNeg` continue them with "the policy's digits + the exact value".  **That the
+multi-word storage computes the exact value is property C10's theorem; the model takes it as the definition**, so
+the content of the theorems below is the type rule and the range claim: for every operator, every digit count —
+now unbounded — every signedness mix and all in-range operands, the exact result lies in the declared range of the
+digits the policy gives, and `xBin` is `binOp` (hence everything `binOp_exact` says, with its proof through the
+built-in operators) wherever the result has built-in storage.  No well-formedness hypothesis is left: `xBin` is
+total on the five arithmetic operators.
+-/
+
+/-- `xBin` agrees with `binOp` wherever that is well-formed (built-in storage) -/
+theorem wide_binOp_agrees (op : BinOp) (x y : ENum) (hwf : ∀ m, binOp op x y ≠ .ill m) :
+    xBin op x y = binOp op x y :=
+  xBin_eq_binOp op x y hwf
+
+/-- `+ - * / %` whatever storage the result needs: when the policy yields `(d, sg)`, `xBin` returns (never undefined
+behaviour, never ill-formed) a number `z` with the exact value, `d` digits, inside its declared range, and
+non-negative whenever the policy says unsigned -/
+theorem wide_binOp_exact (op : AOp) (x y : ENum) (hx : x.InRange) (hy : y.InRange)
+    (h0 : (op = .div ∨ op = .mod) → y.value ≠ 0) {d : Nat} {sg : Bool}
+    (hp : policy (AOp.toBin op) x.digits x.narrowest.signed y.digits y.narrowest.signed = some (d, sg)) :
+    ∃ z, xBin (AOp.toBin op) x y = .ok z ∧
+      z.value = exact op x.value y.value ∧ z.value = Elastic.exactBin (AOp.toBin op) x.value y.value ∧
+      z.digits = d ∧ z.InRange ∧ (sg = false → 0 ≤ z.value) := by
+  obtain ⟨n, h1, he, hs⟩ := xBin_wf op x y hx hy h0 hp
+  exact ⟨_, h1, rfl, (exactBin_eq op _ _).symm, rfl, he.mono hs, fun h => (fits_iff.mp he).2 h⟩
+
+/-- unary minus whatever storage the result needs: exact, same digits, signed, in range -/
+theorem wide_neg_exact (x : ENum) (hx : x.InRange) :
+    ∃ z, xNeg x = .ok z ∧ z.value = -x.value ∧ z.digits = x.digits ∧ z.narrowest.signed = true ∧ z.InRange ∧
+      ((∀ m, neg x ≠ .ill m) → xNeg x = neg x) := by
+  have ⟨h1, hf⟩ := xNeg_wf x hx
+  exact ⟨_, h1, rfl, rfl, rfl, hf, xNeg_eq_neg x⟩
+
+-- 100-digit operands: the product needs 200 digits (two or more machine words), the sum 101
+example : binOp .mul ⟨100, i32, 2^100 - 1⟩ ⟨100, i32, -(2^100 - 1)⟩ = .ill "result digits exceed the widest integer"
+    ∧ xBin .mul ⟨100, i32, 2^100 - 1⟩ ⟨100, i32, -(2^100 - 1)⟩ = .ok ⟨200, i32, -((2^100 - 1) * (2^100 - 1))⟩ := by
+  decide +kernel
+example : xBin .add ⟨127, i64, 2^127 - 1⟩ ⟨127, u8, 2^127 - 1⟩ = .ok ⟨128, i64, 2^128 - 2⟩
+    ∧ xBin .sub ⟨128, u32, 0⟩ ⟨128, u32, 2^128 - 1⟩ = .ok ⟨128, i32, -(2^128 - 1)⟩
+    ∧ xBin .mod ⟨200, i32, -(2^200 - 1)⟩ ⟨10, i32, 1000⟩ = .ok ⟨10, i32, -375⟩
+    ∧ xNeg ⟨128, u32, 2^128 - 1⟩ = .ok ⟨128, i32, -(2^128 - 1)⟩ := by decide +kernel
+example : (⟨100, i32, 2^100 - 1⟩ : ENum).InRange ∧ (⟨100, i32, -(2^100 - 1)⟩ : ENum).InRange
+    ∧ policy (AOp.toBin .mul) 100 true 100 true = some (200, true) := by decide +kernel
+-- built-in storage: the same result as `binOp`
+example : xBin .mul ⟨31, i32, -2147483647⟩ ⟨32, u32, 4294967295⟩ = .ok ⟨63, i32, -9223372030412324865⟩ := by decide
 
 end Cnl.C05
